@@ -1116,3 +1116,119 @@ rule("C06", "D6.11", "T-WHO", floor=2)(_codec_purity)
 rule("C07", "D7.9", "T-WHO", floor=2)(_codec_purity)
 rule("C17", "D17.6", "T-WITNESS", floor=8)(d2_12)
 rule("C17", "D17.7", "T-WITNESS", floor=6)(d1_15)
+
+
+# ---------------------------------------------------------------------------------------------------------------- Array
+def _array_rule(ctx):
+    """The generated Array class folded on witness element types (one byte per element; a bit-string element of one byte =
+    8 bools; element codecs are markers) for each kind of length: fixed n encodes exactly n elements (more values are cut,
+    fewer are DataError) and decodes n; a length type writes / reads the element count first; None encodes all values and
+    decodes to the end of the buffer; the per-call length overrides the declared one; bit-string elements take / give a flat
+    list of bools in whole elements."""
+    from ..consteval import ClassRef
+    from ..miniinterp import Stream
+
+    DTm = "pycomm3.cip.data_types"
+    arr = ctx.model.cls(f"{DTm}:Array.Array")
+    enc, dec = arr.methods["encode"], arr.methods["decode"]
+    usint = ClassRef(ctx.model.cls(f"{DTm}:USINT"))
+    elem, bits = Obj(kind="elem", size=1), Obj(kind="bits", size=1)
+
+    def hook(call, env, it):
+        n = call_name(call) or ""
+        f = call.func
+        if n in ("isinstance", "issubclass") and isinstance(f, ast.Name) and len(call.args) == 2:
+            v = it.ev(call.args[0], env)
+            tname = ast.unparse(call.args[1]).split(".")[-1]
+            is_class = isinstance(v, ClassRef) or (isinstance(v, Obj) and v.__dict__.get("kind") in ("elem", "bits"))
+            if n == "issubclass":
+                if not is_class:
+                    raise _Raise("TypeError")
+                if tname == "BitArrayType":
+                    return isinstance(v, Obj) and v.kind == "bits"
+                if tname == "DataType":
+                    return True
+                return UNKNOWN
+            if tname == "DataType":
+                return False if (is_class or v is None or isinstance(v, (int, str, bytes, list))) else UNKNOWN
+            if tname == "type":
+                return is_class
+            if tname == "int":
+                return isinstance(v, int) and not isinstance(v, bool)
+            if tname == "BufferEmptyError":
+                return UNKNOWN
+            return UNKNOWN
+        if isinstance(f, ast.Attribute) and f.attr in ("encode", "decode") and isinstance(f.value, ast.Attribute) and f.value.attr == "element_type":
+            et = it.ev(f.value, env)
+            if not isinstance(et, Obj):
+                return UNKNOWN
+            a = it.ev(call.args[0], env)
+            if f.attr == "encode":
+                if et.kind == "bits":
+                    if not (isinstance(a, list) and len(a) == 8 and all(isinstance(x, bool) for x in a)):
+                        raise _Raise("DataError")
+                    return bytes([sum(1 << i for i, b_ in enumerate(a) if b_)])
+                if not isinstance(a, int) or isinstance(a, bool) or not 0 <= a < 256:
+                    raise _Raise("DataError")
+                return bytes([a])
+            got = a.read(1)
+            if not got:
+                raise _Raise("BufferEmptyError")
+            return [bool(got[0] >> i & 1) for i in range(8)] if et.kind == "bits" else got[0]
+        if n == "_as_stream" and isinstance(f, ast.Name):
+            v = it.ev(call.args[0], env)
+            return v if isinstance(v, Stream) else Stream(v)
+        if n in ("_repr", "repr") or (isinstance(f, ast.Attribute) and f.attr == "repr"):
+            return "<repr>"
+        return UNKNOWN
+
+    def cls_w(length, et):
+        return Obj(kind="array-class", length=length, element_type=et, _ci=arr, _is_class=True)
+
+    b16 = [i % 3 == 0 for i in range(16)]
+    pack = lambda bl: bytes(sum(1 << i for i, b_ in enumerate(bl[j:j + 8]) if b_) for j in range(0, len(bl), 8))  # noqa: E731
+    ecases = [
+        ("fixed 3, exactly 3 values", cls_w(3, elem), [1, 2, 3], None, ("return", b"\x01\x02\x03")),
+        ("fixed 3, 4 values (surplus cut)", cls_w(3, elem), [1, 2, 3, 4], None, ("return", b"\x01\x02\x03")),
+        ("fixed 3, 2 values", cls_w(3, elem), [1, 2], None, ("raise", "DataError")),
+        ("declared 8, per-call length 2", cls_w(8, elem), [1, 2, 3], 2, ("return", b"\x01\x02")),
+        ("USINT-prefixed", cls_w(usint, elem), [5, 6], None, ("return", b"\x02\x05\x06")),
+        ("USINT-prefixed, empty", cls_w(usint, elem), [], None, ("return", b"\x00")),
+        ("unbounded", cls_w(None, elem), [7, 8, 9], None, ("return", b"\x07\x08\x09")),
+        ("value outside the element type", cls_w(2, elem), [1, 300], None, ("raise", "DataError")),
+        ("not a sequence", cls_w(2, elem), None, None, ("raise", "DataError")),
+        ("bit strings, fixed 2, 16 bools", cls_w(2, bits), b16, None, ("return", pack(b16))),
+        ("bit strings, fixed 2, 15 bools", cls_w(2, bits), b16[:15], None, ("raise", "DataError")),
+        ("bit strings, unbounded, 12 bools", cls_w(None, bits), b16[:12], None, ("raise", "DataError")),
+        ("bit strings, USINT-prefixed, 8 bools", cls_w(usint, bits), b16[:8], None, ("return", b"\x01" + pack(b16[:8]))),
+    ]
+    ep = [a.arg for a in enc.args.args]
+    for label, c, vals, ln, want in ecases:
+        kind, res = run_function(ctx, arr.module, enc, {ep[0]: c, ep[1]: (list(vals) if isinstance(vals, list) else vals), ep[2]: ln}, call_hook=hook, deep=False)
+        res = bytes(res) if isinstance(res, bytearray) else res
+        _report(ctx, ckey(arr.key + ".encode", f"witness:{label}"), enc, label, (kind, res), want, "Array.encode")
+    dp = [a.arg for a in dec.args.args]
+    dcases = [
+        ("fixed 3 of 4 bytes", cls_w(3, elem), b"\x01\x02\x03\x04", None, ("return", [1, 2, 3]), 3),
+        ("fixed 3 of 2 bytes", cls_w(3, elem), b"\x01\x02", None, ("raise", "BufferEmptyError"), None),
+        ("declared 8, per-call length 2", cls_w(8, elem), b"\x01\x02\x03", 2, ("return", [1, 2]), 2),
+        ("USINT-prefixed", cls_w(usint, elem), b"\x02\x05\x06\x07", None, ("return", [5, 6]), 3),
+        ("unbounded", cls_w(None, elem), b"\x07\x08\x09", None, ("return", [7, 8, 9]), 3),
+        ("unbounded, empty buffer", cls_w(None, elem), b"", None, ("return", []), 0),
+        ("bit strings, fixed 2", cls_w(2, bits), pack(b16) + b"\xff", None, ("return", b16), 2),
+        ("bit strings, unbounded", cls_w(None, bits), pack(b16), None, ("return", b16), 2),
+    ]
+    for label, c, data, ln, want, pos in dcases:
+        st = Stream(data)
+        kind, res = run_function(ctx, arr.module, dec, {dp[0]: c, dp[1]: st, dp[2]: ln}, call_hook=hook, deep=False)
+        key = ckey(arr.key + ".decode", f"witness:{label}")
+        if kind == "unknown":
+            ctx.undecided(key, dec, f"Array.decode not foldable on {label}: {res}")
+            continue
+        ok = (kind, res) == want and (pos is None or st.pos == pos)
+        ctx.check(ok, key, dec, f"{label}: {want[1]!r}" + (f", {pos} byte(s) consumed" if pos is not None else ""), f"Array.decode on {label} gives {kind} {res!r} after {st.pos} byte(s); expected {want[0]} {want[1]!r}" + (f" after {pos}" if pos is not None else ""), witness=label)
+
+
+rule("C06", "D6.12", "T-WITNESS", floor=15)(_array_rule)
+rule("C07", "D7.10", "T-WITNESS", floor=15)(_array_rule)
+rule("C08", "D8.10", "T-WITNESS", floor=15)(_array_rule)
